@@ -148,7 +148,7 @@ CLAIMED.update({
              'no match / empty registry => no member (registry_no_match, registry_empty). Pins: header / error-status / FRU flag masks, SRC types, FRU type and priority tables. '
              'Correspondence: all FRU x PCE x MRU combinations, the adversarial "PE"/"MR"/"ID" byte pairs, fixture SRC / callout modules, generated '
              'message registries (colliding reason codes, 0..4 placeholders, malformed sources and word keys), out-of-domain inputs.',
-        note=BASE + 'The message registry is a parameter of the model (SrcEnv.registry); the harness installs generated registries as pel.peltool.src.registry.pels - the sandbox has no pel_registry package, so the shipped message_registry.json is never read. Registry members are strings; str.format field syntax in messages, non-ASCII digits and int() spellings other than [0-9]+ are outside the modelled subset (model answers unsupported; counted and skipped).',
+        note=BASE + 'The message registry is a parameter of the model (SrcEnv.registry); the harness installs generated registries as pel.peltool.src.registry.pels, and (c03.check_registry_file) as a JSON file named by a fixture pel_registry package that separate peltool runs load through Registry.loadJson while the file is replaced between runs; the sandbox has no real pel_registry package, so the shipped message_registry.json itself is never read. Registry members are strings; str.format field syntax in messages, non-ASCII digits and int() spellings other than [0-9]+ are outside the modelled subset (model answers unsupported; counted and skipped).',
         technique='Lean 4 proof (continuation-passing exactness lemmas for nested variable-length records, invariant over the callout loop) + differential correspondence',
         ref='§4 C03'),
     'C05': dict(
